@@ -21,7 +21,7 @@ def trees(max_regions, max_depth, kinds=("G", "P")):
             return out
         for kids, used in forests(budget - 1, depth - 1):
             for kind in kinds:
-                rps = [None] + (list(range(len(kids) + 1)) if kind == "G" else [])
+                rps = ([None] if kind != "K" else []) + (list(range(len(kids) + 1)) if kind in ("G", "K") else [])
                 for rp in rps:
                     out.append(((kind, rp, kids), used + 1))
         return out
@@ -38,6 +38,10 @@ def count(forest):
 
 class Boom(Exception):
     pass
+
+
+class BoomBase(BaseException):
+    """an abort that is not an Exception (KeyboardInterrupt, SystemExit, GeneratorExit are of this kind)"""
 
 
 def run_history(k, forest, e0):
@@ -74,16 +78,17 @@ def run_history(k, forest, e0):
                 obs.append(("region %d: error suppression = initial or some condition false" % ci,
                             bool(rt._ignore_errors) == (bool(e0) or anyzero)))
             obs.append(("region %d: constants are multiples of the active guard" % ci, rt.LinComb.ONE is rt.guard))
+            boom = BoomBase if kind == "K" else Boom
             for i, kid in enumerate(kids):
                 if rp == i:
-                    raise Boom()
+                    raise boom()
                 region(kid, allc)
             if rp == len(kids):
-                raise Boom()
+                raise boom()
 
         entered = True
         try:
-            if kind == "G":
+            if kind in ("G", "K"):
                 rt.guarded(k.S(nm))(body)()
             elif kind in ("I", "J"):
                 br = k.br
@@ -114,6 +119,9 @@ def run_history(k, forest, e0):
                 finally:
                     pass
                 rt.restore_guard(bak)
+        except BoomBase:
+            if kind != "K":
+                raise
         except Boom:
             if kind != "G" and rp is None:
                 # a Boom from a nested G region cannot escape (caught there); from a P region it never starts
@@ -142,7 +150,7 @@ def build(n=4, tier="quick"):
     ents = []
     forests = list(trees(maxr, maxd))
     seen = set(forests)
-    for f in trees(2 if tier == "quick" else 3, 2, kinds=("G", "P", "I", "J")):
+    for f in trees(2 if tier == "quick" else 3, 2, kinds=("G", "P", "I", "J", "K")):
         if f not in seen:
             forests.append(f)
             seen.add(f)
